@@ -1,4 +1,5 @@
 import subprocess, re, os, sys, tempfile, shutil, concurrent.futures as cf
+VERIF = os.environ.get('VERIF_DIR') or os.path.dirname(os.path.dirname(os.path.abspath(__file__)))
 REL = {'sm2/internal/fiat': ['C16','C15','C08','C17'], 'sm2/internal': ['C14','C15','C08','C17'], 'sm2/sm2': ['C01','C02','C03','C12','C13','C19','C08','C10','C17'],
        'sm3/': ['C04','C10','C13','C17'], 'sm4/': ['C05','C06','C07','C09','C10','C11','C17'], 'utils/': ['C20','C08','C17','C14']}
 def one(p):
@@ -17,7 +18,7 @@ def one(p):
         shutil.rmtree(tmp); return p, ['PATCH FAILED']
     env=dict(os.environ, GOFLAGS='-mod=mod', GOPROXY='off', GOSUMDB='off', GOTOOLCHAIN='local')
     for i in ids:
-        out = subprocess.run(['/verif/bin/govc','check','-repo',tmp,'-no-evidence',i], capture_output=True, text=True, env=env, cwd='/verif').stdout
+        out = subprocess.run([VERIF+'/bin/govc','check','-verif',VERIF,'-repo',tmp,'-no-evidence',i], capture_output=True, text=True, env=env, cwd=VERIF).stdout
         v=[l for l in out.split('\n') if l.startswith('VIOLATION')]
         st=[l for l in out.split('\n') if l.startswith('STALE')]
         if v: res.append('%s: %d VIOLATIONS: %s' % (i, len(v), v[0][:230]))
